@@ -41,9 +41,28 @@ func wireSource(p *core.Prog, v ssa.Value) bool {
 					is = true
 				}
 			})
-			return is
+			if is {
+				return true
+			}
+			// helper returning a wire-derived value
+			for _, r := range throughReturns(p, x) {
+				if r.val != ssa.Value(x) && wireSourceD(p, r.val, 1) {
+					return true
+				}
+			}
+			return false
 		}
 	case *ssa.Extract:
+		if c, ok := x.Tuple.(*ssa.Call); ok {
+			if f := c.Call.StaticCallee(); f != nil && p.InRepo(f) && !core.IsPkgFunc(c, "encoding/binary", "ReadUvarint") {
+				for _, r := range throughReturns(p, x) {
+					if wireSourceD(p, r.val, 1) {
+						return true
+					}
+				}
+				return false
+			}
+		}
 		return wireSource(p, x.Tuple)
 	case *ssa.BinOp:
 		return wireSource(p, x.X) || wireSource(p, x.Y)
@@ -55,6 +74,13 @@ func wireSource(p *core.Prog, v ssa.Value) bool {
 		}
 	}
 	return false
+}
+
+func wireSourceD(p *core.Prog, v ssa.Value, d int) bool {
+	if d > 3 {
+		return false
+	}
+	return wireSource(p, v)
 }
 
 // isConfig: v is derived only from receiver fields / constants.
@@ -82,7 +108,7 @@ func isConfig(v ssa.Value, recv ssa.Value, d int) bool {
 
 func runC08(c *core.Ctx) {
 	p := c.P
-	c.Rule("R1", "wire-derived lengths are bounded (after their last arithmetic, no sign flip) before use", 2)
+	c.Rule("R1", "wire-derived lengths are bounded (after their last arithmetic, no sign flip) before use", 1)
 	c.Rule("R2", "configuration used as size/bound is validated at construction", 3)
 	c.Rule("R3", "every decoder loop consumes checked input and is bounded", 1)
 	c.Rule("R4", "nothing is delivered on a declared length alone (no bare LimitReader downstream)", 4)
@@ -105,8 +131,8 @@ func runC08(c *core.Ctx) {
 			}
 		}
 		isMax := func(m ssa.Value) bool {
-			f, base := core.FieldOf(stripConv(m))
-			return f != nil && f == maxF && core.SameValue(base, recv)
+			f, _ := core.FieldOf(stripConv(m))
+			return f != nil && f == maxF
 		}
 		core.AllInstrs(fn, func(in ssa.Instruction) {
 			var sink ssa.Value
@@ -561,6 +587,19 @@ func runC08(c *core.Ctx) {
 						cd := core.CondOf(ifi)
 						if cd.Op == token.GEQ && sameLenExpr(cd.X, b.X) && sameConfigExpr(cd.Y, b.Y) && core.EdgeDominates(ifi.Block(), cd.True, in.Block()) {
 							okb = true
+						}
+						// guard on the difference itself: (x-y) >= 0
+						if cd.Op == token.GEQ && cd.X == ssa.Value(b) && core.EdgeDominates(ifi.Block(), cd.True, in.Block()) {
+							if k, isC := core.ConstInt(cd.Y); isC && k == 0 {
+								okb = true
+							}
+						}
+					}
+					for _, cm := range falseAt(p, in) {
+						if cm.Op == token.LSS && cm.X == ssa.Value(b) {
+							if k, isC := core.ConstInt(cm.Y); isC && k == 0 {
+								okb = true
+							}
 						}
 					}
 					c.Check(okb, "R6", "slice-bound/"+core.FName(fn), p.InstrPos(in), "len(a)-len(b) bound guarded by len(a) >= len(b)", "a slice bound of the form x-y is not dominated by a guard x >= y: short input makes the decoder fail with a runtime fault (slice bounds out of range)")
